@@ -59,6 +59,8 @@ type aspectCallFrame struct {
 	// Placed at end on purpose. The RLP will be decoded to 0 instead of
 	// nil if there are non-empty elements after in the struct.
 	Value *big.Int `json:"value,omitempty" rlp:"optional"`
+
+	exited bool // set once the aspect execution has reported its result
 }
 
 func (f aspectCallFrame) TypeString() string {
@@ -221,10 +223,13 @@ func (t *callTracer) CaptureAspectExit(joinpoint types.JoinPointRunType, result 
 	// reset join point if we exit
 	last := len(t.callstack) - 1
 	t.callstack[last].joinPoint = types.JoinPointRunType_Unknown
-	for i := range t.callstack[last].JoinPoints {
-		if t.callstack[last].JoinPoints[i].Type == joinpoint {
+	// the result belongs to the most recently entered aspect execution of this
+	// join point that has not exited yet, several aspects can be bound to one join point
+	for i := len(t.callstack[last].JoinPoints) - 1; i >= 0; i-- {
+		if t.callstack[last].JoinPoints[i].Type == joinpoint && !t.callstack[last].JoinPoints[i].exited {
 			t.callstack[last].JoinPoints[i].GasUsed = t.callstack[last].JoinPoints[i].Gas - result.Gas
 			t.callstack[last].JoinPoints[i].processOutput(result.Ret, result.Err)
+			t.callstack[last].JoinPoints[i].exited = true
 			break
 		}
 	}
@@ -342,7 +347,7 @@ func (t *callTracer) CaptureExit(output []byte, gasUsed uint64, err error) {
 	if t.callstack[size-1].joinPoint != types.JoinPointRunType_Unknown {
 		// if currently the call is initiated by aspect, we need to append it
 		// to the calls in aspect frame not current callstack
-		last := len(t.callstack[size-1].JoinPoints)
+		last := len(t.callstack[size-1].JoinPoints) - 1
 		t.callstack[size-1].JoinPoints[last].Calls = append(t.callstack[size-1].JoinPoints[last].Calls, call)
 	} else {
 		// append to callstack otherwise
